@@ -97,7 +97,7 @@ fn keep(c: &Cx) -> Option<Cx> {
 
 fn simple(depth: u32) -> BoxedStrategy<Simple> {
     let leaf = prop_oneof![
-        6 => one_of(&[".a", ".b", ".c", "#i", "[k]", ":hover", ":focus"]).prop_map(Simple::Plain),
+        6 => one_of(&[".a", ".b", ".c", "#i", "[k]", "[k]", "[m=v]", ":hover", ":focus"]).prop_map(Simple::Plain),
         2 => one_of(&["p", "q"]).prop_map(Simple::Placeholder),
     ];
     if depth == 0 {
@@ -217,6 +217,14 @@ impl Prop for C22 {
         let canon = |r: &Vec<(String, Vec<String>)>| -> Vec<(String, Vec<String>)> {
             r.iter().map(|(s, d)| (selnorm::split_list(s).iter().map(|c| { let c = selnorm::canon_complex(c); c.strip_prefix("* ").filter(|r| !r.starts_with(['>', '+', '~'])).map(|r| r.to_string()).unwrap_or(c) }).collect::<Vec<_>>().join(", "), d.clone())).collect()
         };
+        // "the remaining selectors keep their text": the canonical form forgives a universal selector in front of
+        // other simple selectors (`*[k]` for `[k]`), which rsass does not write on the unchanged tree; count those
+        let redundant_stars = |r: &Vec<(String, Vec<String>)>| -> Vec<usize> {
+            r.iter().map(|(s, _)| s.as_bytes().windows(2).filter(|w| w[0] == b'*' && matches!(w[1], b'.' | b'#' | b'[' | b':')).count()).collect()
+        };
+        if canon(&got) == canon(&want) && redundant_stars(&got) != redundant_stars(&want) {
+            return Verdict::fail(format!("with placeholders the output is {:?}, the same nest without the removed selectors gives {:?} (a universal selector was added or lost)\n{src}", got.iter().map(|x| &x.0).collect::<Vec<_>>(), want.iter().map(|x| &x.0).collect::<Vec<_>>()));
+        }
         if canon(&got) != canon(&want) {
             return Verdict::fail(format!("with placeholders the output is {:?}, the same nest without the removed selectors gives {:?}\n{src}", canon(&got), canon(&want)));
         }
